@@ -171,6 +171,7 @@ def run(plugin, prop, tier, seed, work, replay, t0):
     audited = 0
     if ok:
         res, missing, raw = vlib.print_axioms_all(mods, theorems)
+        cov["axioms_per_theorem"] = {n: sorted(a) for n, a in sorted(res.items())}
         for n, axs in res.items():
             audited += 1
             axioms_used.update(axs)
